@@ -61,11 +61,18 @@ def _lengths(rng):
 
 
 def _around_captures():
+    import base64
     out = []
     for c in c05.captures():
         b = bytes.fromhex(c["dgram"])
         for k in (1, 2, 3):
             out += [b[:-k].hex(), (b + bytes(k)).hex(), b[k:].hex()]
+        # a genuine broadcast in some other guise is not a broadcast: its hex dump as text (lower, upper, with a newline), base64,
+        # sent twice in one datagram, reversed, with a text prefix
+        t = b.hex()
+        for other in (t.encode(), t.upper().encode(), (t + "\n").encode(), (" " + t).encode(), base64.b64encode(b), b + b, b[::-1],
+                      b"broadcast:" + b, b[:2] + b):
+            out.append(other.hex())
     return out
 
 
